@@ -20,8 +20,10 @@ ASPECTS = {
     # the value is the *document's* content only if every entry point feeds the core exactly the input's characters and
     # returns the core's value unchanged
     "C02.entry": ("source-content", "adaptor-char", "tail-ok"),
-    "C05.entry": ("fresh", "adaptor-len", "tail-ok"),
-    "C07.entry": ("shape", "fresh", "adaptor-len", "tail-err"),
+    # spans and error offsets are offsets *in the input*: the parser must read the input from its first character on (a trimmed
+    # or otherwise shortened source shifts every offset), at offset 0, with every character's UTF-8 length recorded
+    "C05.entry": ("fresh", "source", "adaptor-len", "tail-ok"),
+    "C07.entry": ("shape", "fresh", "source", "adaptor-len", "tail-err"),
     # the leniency flags act inside the string scanner only: no entry point branches on them or decodes its input differently
     "C12.entry": ("options", "options-free"),
 }
